@@ -50,6 +50,8 @@ package space
 //@ modifies nothing
 //@ func (*index/space.Cosine).Distance
 //@ props C12 C01
+//@ trust floatorder
 //@ requires [impl] this != nil && !isnil(this.impl)
 //@ ensures [C12 non-negative] !(ret < 0)
+//@ ensures [C01 never-NaN] !isnan(ret)
 //@ modifies nothing
